@@ -95,5 +95,83 @@ theorem upperMat_rot_z (m : Nat) (mt : Mat K) :
   obtain ⟨ie, im, sE, sH⟩ := mt
   cases sE <;> cases sH <;> rfl
 
+/-! ### restriction along one axis keeps parity / invariance about the other planes -/
+
+/-- parity about a plane normal to y (read through `rotV`) survives the restriction to the upper half along x -/
+theorem SymE.upper_x {r my : Nat} {V : V3 K} (h : SymE my r (rotV V)) (mx : Nat) : SymE my r (rotV (upperV 0 mx V)) :=
+  ⟨fun d j k hd => h.x d j (mx + k) hd, fun d j k hd => h.y d j (mx + k) hd, fun d j k hd => h.z d j (mx + k) hd,
+   fun j k h0 => h.y0 j (mx + k) h0, fun j k h0 => h.z0 j (mx + k) h0⟩
+
+theorem SymH.upper_x {r my : Nat} {V : V3 K} (h : SymH my r (rotV V)) (mx : Nat) : SymH my r (rotV (upperV 0 mx V)) :=
+  ⟨fun d j k hd => h.x d j (mx + k) hd, fun j k h0 => h.x0 j (mx + k) h0, fun d j k hd => h.y d j (mx + k) hd,
+   fun d j k hd => h.z d j (mx + k) hd⟩
+
+/-- y-invariant materials stay y-invariant under the restriction along x -/
+theorem XInv.upper_x {mt : Mat K} (h : XInv (rotMat mt)) (mx : Nat) : XInv (rotMat (upperMat 0 mx mt)) := by
+  obtain ⟨ie, im, sE, sH⟩ := mt
+  refine ⟨fun i i' j k => h.ex i i' j (mx + k), fun i i' j k => h.ey i i' j (mx + k), fun i i' j k => h.ez i i' j (mx + k),
+    fun i i' j k => h.mx i i' j (mx + k), fun i i' j k => h.my i i' j (mx + k), fun i i' j k => h.mz i i' j (mx + k),
+    ?_, ?_, ?_, ?_, ?_, ?_⟩
+  all_goals
+    intro v hv i i' j k
+    first
+      | (cases sE with
+         | none => simp [rotMat, upperMat] at hv
+         | some w =>
+           simp only [rotMat, upperMat, Option.map_some, Option.some.injEq] at hv
+           subst hv
+           first
+             | exact h.sEx (rotV w) rfl i i' j (mx + k)
+             | exact h.sEy (rotV w) rfl i i' j (mx + k)
+             | exact h.sEz (rotV w) rfl i i' j (mx + k))
+      | (cases sH with
+         | none => simp [rotMat, upperMat] at hv
+         | some w =>
+           simp only [rotMat, upperMat, Option.map_some, Option.some.injEq] at hv
+           subst hv
+           first
+             | exact h.sHx (rotV w) rfl i i' j (mx + k)
+             | exact h.sHy (rotV w) rfl i i' j (mx + k)
+             | exact h.sHz (rotV w) rfl i i' j (mx + k))
+
+theorem SymE.upper_xy {r mz : Nat} {V : V3 K} (h : SymE mz r (rotV (rotV V))) (mx my : Nat) :
+    SymE mz r (rotV (rotV (upperV 1 my (upperV 0 mx V)))) :=
+  ⟨fun d j k hd => h.x d (mx + j) (my + k) hd, fun d j k hd => h.y d (mx + j) (my + k) hd,
+   fun d j k hd => h.z d (mx + j) (my + k) hd, fun j k h0 => h.y0 (mx + j) (my + k) h0,
+   fun j k h0 => h.z0 (mx + j) (my + k) h0⟩
+
+theorem SymH.upper_xy {r mz : Nat} {V : V3 K} (h : SymH mz r (rotV (rotV V))) (mx my : Nat) :
+    SymH mz r (rotV (rotV (upperV 1 my (upperV 0 mx V)))) :=
+  ⟨fun d j k hd => h.x d (mx + j) (my + k) hd, fun j k h0 => h.x0 (mx + j) (my + k) h0,
+   fun d j k hd => h.y d (mx + j) (my + k) hd, fun d j k hd => h.z d (mx + j) (my + k) hd⟩
+
+theorem XInv.upper_xy {mt : Mat K} (h : XInv (rotMat (rotMat mt))) (mx my : Nat) :
+    XInv (rotMat (rotMat (upperMat 1 my (upperMat 0 mx mt)))) := by
+  obtain ⟨ie, im, sE, sH⟩ := mt
+  refine ⟨fun i i' j k => h.ex i i' (mx + j) (my + k), fun i i' j k => h.ey i i' (mx + j) (my + k),
+    fun i i' j k => h.ez i i' (mx + j) (my + k), fun i i' j k => h.mx i i' (mx + j) (my + k),
+    fun i i' j k => h.my i i' (mx + j) (my + k), fun i i' j k => h.mz i i' (mx + j) (my + k), ?_, ?_, ?_, ?_, ?_, ?_⟩
+  all_goals
+    intro v hv i i' j k
+    first
+      | (cases sE with
+         | none => simp [rotMat, upperMat] at hv
+         | some w =>
+           simp only [rotMat, upperMat, Option.map_some, Option.some.injEq] at hv
+           subst hv
+           first
+             | exact h.sEx (rotV (rotV w)) rfl i i' (mx + j) (my + k)
+             | exact h.sEy (rotV (rotV w)) rfl i i' (mx + j) (my + k)
+             | exact h.sEz (rotV (rotV w)) rfl i i' (mx + j) (my + k))
+      | (cases sH with
+         | none => simp [rotMat, upperMat] at hv
+         | some w =>
+           simp only [rotMat, upperMat, Option.map_some, Option.some.injEq] at hv
+           subst hv
+           first
+             | exact h.sHx (rotV (rotV w)) rfl i i' (mx + j) (my + k)
+             | exact h.sHy (rotV (rotV w)) rfl i i' (mx + j) (my + k)
+             | exact h.sHz (rotV (rotV w)) rfl i i' (mx + j) (my + k))
+
 end
 end Fdtdx.C33
